@@ -29,7 +29,6 @@ pub struct Complaint {
 pub struct Out {
     pub complaint: Option<Complaint>,
     pub counters: BTreeMap<String, u64>,
-    pub seen: BTreeSet<(String, String)>,
     pub trace: Vec<String>,
 }
 
